@@ -203,15 +203,33 @@ def string_unit(arg):
     lexsym.remove_hash_abstraction()
     bad = []
     accepted = 0
+    variants = 0
+    seen = set()
     for p in paths:
         if p.kind == 'ok':
             accepted += p.value[0] == 'sentence'
+            if p.value[0] == 'sentence' and p.value[2] not in seen:
+                # "with arbitrary extra whitespace": blanks inserted at every position of the
+                # accepted witness, real entry point against the reference parser (concrete)
+                text = p.value[2]
+                seen.add(text)
+                vs = parsex.blank_variants(text)
+                variants += len(vs)
+                for v, real, ref in parsex.whitespace_differential(notation, text, STORES[store_name])[:2]:
+                    bad.append(dict(text=v, store=store_name, kind='whitespace',
+                                    error=f'with blanks inserted into {text!r}: real parser {real}, '
+                                          f'reference {ref}'))
             continue
         e = p.value
+        s = p.notes.get('input')
         if getattr(e, 'kind', None) == 'denotation':
-            s = p.notes.get('input')
             bad.append(dict(text=s.witness(alpha[0]), error=str(e), store=store_name))
-    return dict(notation=notation, n=n, stats=ex.stats(), bad=bad[:10], accepted=accepted, head=head)
+        elif getattr(e, 'kind', None) == 'agreement' and str(e).startswith('real parser: reject'):
+            # a string the reference parser reads as a sentence is well formed: rejecting it
+            # is not mapping it to the sentence it denotes
+            bad.append(dict(text=s.witness(alpha[0]), error=str(e), store=store_name))
+    return dict(notation=notation, n=n, stats=ex.stats(), bad=bad[:10], accepted=accepted, head=head,
+                variants=variants)
 
 
 def run(ctx):
@@ -278,9 +296,12 @@ def run(ctx):
     rep.coverage = dict(
         states=paths, transitions=trans, traces_validated_against_impl=sentences, samples=samples[:6],
         sentences_round_tripped=sentences, accepted_standard_inputs=accepted,
+        whitespace_variants=sum(r.get('variants', 0) for r in tres),
         renderings_compared={'/'.join(map(str, k)): len(v) for k, v in merged.items()},
         bounds=dict(shapes=list(shapes()), subscripts=list(subs), index='first and last of the type range',
-                    standard_input_length=N, alphabet=''.join(alpha)),
+                    standard_input_length=N, alphabet=''.join(alpha),
+                    whitespace='every accepted witness with one / two blanks inserted at every position, all '
+                               'positions at once, and around it (real entry point vs reference, concrete)'),
         functions_executed=['LexWriter._write*/PolishLexWriter/StandardLexWriter', 'Parser.__call__',
                             'Argument.argstr/from_argstr', 'StringTable lookups'],
         file_hashes=file_hashes(FILES), exhaustive=not rep.inconclusive,
@@ -310,4 +331,5 @@ def replay(data):
         ref = ('sentence', refparse.parse('standard', data['text'], dict(STORES[data['store']])))
     except refparse.Reject as e:
         ref = ('reject', str(e))
-    return (got[0] == 'sentence' and ref[0] == 'sentence' and got[1] != ref[1]), f'real {got}, reference {ref}'
+    # the reference reads a sentence: the real parser must return that sentence
+    return (ref[0] == 'sentence' and (got[0] != 'sentence' or got[1] != ref[1])), f'real {got}, reference {ref}'
